@@ -391,7 +391,7 @@ func VF_SELF_bigbridge() {
 	vfNote("m.Int64", m.Int64())
 	vfNote("(m-65536).Int64", new(big.Int).Sub(m, k64k).Int64())
 	vfNote("byte(m)", byte(m.Int64()))
-	vfNote("uint16(m>>4)", uint16(new(big.Int).Rsh(m, 4).Uint64()))
+	vfNote("uint16((m>>4)&0xffff)", uint16(new(big.Int).And(new(big.Int).Rsh(m, 4), big.NewInt(0xffff)).Uint64()))
 	vfNote("m<n", m.Cmp(n) < 0)
 	vfNote("m<-128", m.Cmp(big.NewInt(-128)) < 0)
 	vfNote("m-65536<-70000", new(big.Int).Sub(m, k64k).Cmp(big.NewInt(-70000)) < 0)
